@@ -536,7 +536,7 @@ class Engine:
         if isinstance(e, ast.Lambda):
             return [(st, "val", Closure(e, len(st.frames) - 1, "<lambda>"))]
         if isinstance(e, (ast.Tuple, ast.List)):
-            return self.ev_seq(e.elts, st, lambda items: TupleV(items) if isinstance(e, ast.Tuple) else Unknown("[...]", null=False))
+            return self.ev_seq(e.elts, st, lambda items: TupleV(items) if isinstance(e, ast.Tuple) else Unknown("[...]" if e.elts else "[]", null=False))
         if isinstance(e, ast.Attribute):
             return [(a, k, Unknown(ast.unparse(e)) if k == "val" else v) for a, k, v in self.ev(e.value, st)]
         if isinstance(e, ast.Subscript):
